@@ -82,7 +82,7 @@ Definition check (c : case) : outcome :=
        && all2 rd_eqb (rd_of m) (impl_main c)
        && all2 rd_eqb (rd_of t) (impl_twin c)
        && (dat_end m =? fin_dat c)
-       && (N.of_nat (length (f_idx F) - fst (fst (check_files F))) =? fin_idx c)
+       && (N.of_nat (List.length (f_idx F) - fst (fst (check_files F))) =? fin_idx c)
        && Bool.eqb (no_write_or_delete m) (fin_ro c)
        && (dat_end t =? twin_dat c);
      (* property oracle, on the implementation's answers only: every key reads the same on the
@@ -97,6 +97,6 @@ Definition check (c : case) : outcome :=
        else None;
      o_nontrivial :=
        existsb (fun x => match readable x with Some (_, v) => 0 <? blen (v_data v) | None => false end) (impl_twin c)
-       && negb (Nat.eqb (length (cidx (c_exec (vttl c) cinit (h1 c)))) 0) |}.
+       && negb (Nat.eqb (List.length (cidx (c_exec (vttl c) cinit (h1 c)))) 0) |}.
 
 Definition summarize_cases (l : list case) : summary := summarize check l.
